@@ -161,7 +161,7 @@ fn prove_scenario_c<B: Fld, H: ElementHasher<BaseField = B> + Send + Sync>(n: us
         n,
         rules: vec![Rule::Pow { d: 2, c: 1 }, Rule::Periodic { cycle, c: 3 }, Rule::FibA, Rule::FibB, Rule::Rot { order: 4 }],
         exemptions: 2,
-        asserts: vec![ASpec { col: 0, kind: AKind::Single(0) }, ASpec { col: 4, kind: AKind::Periodic { first: 0, stride: 4 } }, ASpec { col: 1, kind: AKind::Sequence { first: 1, stride: n / 64 } }],
+        asserts: vec![ASpec { col: 0, kind: AKind::Single(0) }, ASpec { col: 4, kind: AKind::Periodic { first: 0, stride: 4 } }, ASpec { col: 1, kind: AKind::Sequence { first: 1, stride: (n / 64).max(2) } }],
         aux,
         aux_pow: 1,
         tail: Tail::Continue,
@@ -185,7 +185,12 @@ fn prove_scenario_c<B: Fld, H: ElementHasher<BaseField = B> + Send + Sync>(n: us
 pub fn scenarios(thorough: bool) -> Vec<Scenario> {
     let mut v: Vec<Scenario> = vec![];
     let mut add = |name: String, f: Box<dyn Fn() -> Vec<u8> + Send + Sync>| v.push(Scenario { name, run: f });
-    let sizes: Vec<usize> = if thorough { vec![512, 1024, 2048, 4096] } else { vec![512, 1024, 2048] };
+    let sizes: Vec<usize> = if thorough { vec![64, 256, 512, 1024, 2048, 4096] } else { vec![64, 512, 1024, 2048] };
+    // transforms also on sizes far below every threshold
+    for n in [2usize, 8, 16] {
+        add(format!("fft/f64/{n}"), Box::new(move || fft_scenario::<B64, B64>(n)));
+        add(format!("fft/f128/{n}"), Box::new(move || fft_scenario::<B128, B128>(n)));
+    }
     for &n in sizes.iter() {
         add(format!("fft/f64/{n}"), Box::new(move || fft_scenario::<B64, B64>(n)));
         add(format!("fft/f64^2/{n}"), Box::new(move || fft_scenario::<B64, QuadExtension<B64>>(n)));
@@ -196,7 +201,7 @@ pub fn scenarios(thorough: bool) -> Vec<Scenario> {
         add(format!("fri/f64^2/fold2/{n}"), Box::new(move || fri_scenario::<B64, QuadExtension<B64>, hashers::Blake3_256<B64>>(n, 2)));
         add(format!("fri/f128/fold8/{n}"), Box::new(move || fri_scenario::<B128, B128, hashers::Sha3_256<B128>>(n, 8)));
     }
-    for n in [1023usize, 1024, 1025, 2048, 3000, 4096] {
+    for n in [1usize, 2, 3, 8, 31, 64, 127, 128, 129, 255, 513, 1023, 1024, 1025, 2048, 3000, 4096] {
         add(format!("utils/f64/{n}"), Box::new(move || utils_scenario::<B64, B64>(n)));
         add(format!("utils/f128^2/{n}"), Box::new(move || utils_scenario::<B128, QuadExtension<B128>>(n)));
     }
@@ -213,6 +218,12 @@ pub fn scenarios(thorough: bool) -> Vec<Scenario> {
     add("prove/f64/blake3/n1024".into(), Box::new(|| prove_scenario::<B64, hashers::Blake3_256<B64>>(1024, Aux::None, 1, 4)));
     add("prove/f64/blake3/n4096".into(), Box::new(|| prove_scenario::<B64, hashers::Blake3_256<B64>>(4096, Aux::None, 1, 4)));
     add("prove/f64/blake3/n4096/aux+lagrange/quadratic".into(), Box::new(|| prove_scenario::<B64, hashers::Blake3_256<B64>>(4096, Aux::SumLagrange { cols: 2, rands: 3 }, 2, 4)));
+    // tiny traces: every per-batch minimum of the parallel helpers is larger than the data, and large pools have
+    // more threads than rows
+    for n in [8usize, 16, 32, 64, 128, 256] {
+        add(format!("prove/f64/blake3/tiny/n{n}"), Box::new(move || prove_scenario_c::<B64, hashers::Blake3_256<B64>>(n, Aux::None, 1, 4, 8.min(n))));
+        add(format!("prove/f128/sha3/tiny/aux/n{n}"), Box::new(move || prove_scenario_c::<B128, hashers::Sha3_256<B128>>(n, Aux::Sum { cols: 1, rands: 1 }, 1, 8, 4)));
+    }
     // periodic columns as long as the trace / a quarter of it: their table straddles the fragments
     add("prove/f64/blake3/n4096/cycle4096".into(), Box::new(|| prove_scenario_c::<B64, hashers::Blake3_256<B64>>(4096, Aux::None, 1, 4, 4096)));
     add("prove/f64/blake3/n4096/cycle1024".into(), Box::new(|| prove_scenario_c::<B64, hashers::Blake3_256<B64>>(4096, Aux::None, 1, 4, 1024)));
